@@ -32,6 +32,26 @@ class SimulatedCrash(BaseException):
     """Process death.  BaseException so that no library handler swallows it."""
 
 
+class TrapInt(int):
+    """Integer result value that can interrupt the MERGE it takes part in:
+    ``merged += TrapInt`` calls __radd__, which raises when armed.  This puts
+    an interruption point in the middle of SimulationResults.merge_all_results
+    (after some results of the repetition were merged, before the others)."""
+    armed = None       # None or a callable raising the interruption
+
+    def __radd__(self, other):
+        if self.armed is not None:
+            f, self.armed = self.armed, None
+            f()
+        return int(other) + int(self)
+
+    def __add__(self, other):
+        return int(self) + other
+
+    def __reduce__(self):
+        return (int, (int(self),))
+
+
 def val_sumv(g):
     return (7 * g + 3) % 11
 
@@ -79,15 +99,25 @@ class Env(object):
         self.skips = set((int(v), int(a)) for v, a in cfg.get("skips", []))
         self.param_errors = []
         self.real_exit = False      # True: die with os._exit(137)
+        self.exc_kind = "kill"      # "kill" | "ctrlc" (KeyboardInterrupt)
+        self.trap_at_call = None    # attempt whose merge is interrupted
 
     def die(self, msg):
-        """The 'process' dies here."""
+        """The 'process' is interrupted here: killed, or (ctrlc) it receives
+        KeyboardInterrupt, lets the library's handlers run and then exits."""
         if self.real_exit:
             os._exit(137)
+        if self.exc_kind == "ctrlc":
+            raise KeyboardInterrupt(msg)
         raise SimulatedCrash(msg)
 
     def now(self):
         return self.clock
+
+    def regrid(self, cfg):
+        """the user changed parameters on the live runner"""
+        self.cur = dict(cfg=cfg)
+        self.cur["names"], self.cur["combos"] = variations_of(cfg)
 
 
 def stop_model(cfg, v, rep, sumv, ratio_vt):
@@ -112,7 +142,9 @@ def make_runner(env, cfg=None):
     from pyphysim.simulations.runner import SimulationRunner, SkipThisOne
     import numpy as np
     cfg = cfg or env.cfg
-    names, combos = variations_of(cfg)
+    # current grid (may be replaced between simulate() calls: env.regrid)
+    env.cur = dict(cfg=cfg)
+    env.cur["names"], env.cur["combos"] = variations_of(cfg)
 
     class Recorder(SimulationRunner):
         def __init__(self):
@@ -134,6 +166,7 @@ def make_runner(env, cfg=None):
 
         def _variation_of(self, current_params):
             # identify the variation from the VALUES received
+            names, combos = env.cur["names"], env.cur["combos"]
             got = dict((n, current_params[n]) for n in names)
             hits = [i for i, c in enumerate(combos)
                     if all(c[n] == got[n] for n in names)]
@@ -141,7 +174,7 @@ def make_runner(env, cfg=None):
                 env.param_errors.append("values %r match variations %r" %
                                         (got, hits))
                 return None
-            for name, value in cfg["fixed"]:
+            for name, value in env.cur["cfg"]["fixed"]:
                 if np.any(current_params[name] != value):
                     env.param_errors.append("fixed %s=%r received as %r" % (
                         name, value, current_params[name]))
@@ -171,10 +204,16 @@ def make_runner(env, cfg=None):
                 unpack_index=current_params.unpack_index)))
             r = SimulationResults()
             assert g < cfg["idspace"], "harness: idspace too small"
+            assert v is not None or env.param_errors
             one_hot = np.zeros(cfg["idspace"], dtype=np.int64)
             one_hot[g] = 1
             r.add_new_result("ids", Result.SUMTYPE, one_hot)
             r.add_new_result("sumv", Result.SUMTYPE, val_sumv(g))
+            if env.trap_at_call is not None and n == env.trap_at_call:
+                # the merge of this repetition will be interrupted half-way
+                trap = TrapInt(val_sumv(g))
+                trap.armed = lambda: env.die("in merge of call %d" % n)
+                r["sumv"][-1]._value = trap
             rv, rt = val_ratio(g)
             r.add_new_result("ratio", Result.RATIOTYPE, rv, rt)
             r.add_new_result("misc", Result.MISCTYPE, g)
@@ -189,7 +228,7 @@ def make_runner(env, cfg=None):
             rr = current_sim_results["ratio"][-1]
             env.log.append(("kg", dict(run=env.run_no, v=v, rep=current_rep,
                                        ids=digits4(ids), sumv=sumv)))
-            return stop_model(cfg, v, current_rep, sumv,
+            return stop_model(env.cur["cfg"], v, current_rep, sumv,
                               (rr._value, rr._total))
 
     return Recorder()
